@@ -186,6 +186,11 @@ static void vr_exec_setup (OrcExecutor * ex, OrcProgram * p, VArena * A, const V
 {
   int i;
   memset (ex, 0, sizeof (*ex));
+  /* generated callers declare the executor on the stack without clearing it:
+   * scratch fields hold garbage on entry */
+  ex->counter1 = ex->counter2 = ex->counter3 = 0x5a5a5a5a;
+  for (i = ORC_VAR_A2; i <= ORC_VAR_C8; i++) ex->params[i] = 0x5a5a5a5a;
+  for (i = 0; i < 4; i++) ex->accumulators[i] = 0x5a5a5a5a;
   orc_executor_set_program (ex, p);
   orc_executor_set_n (ex, c->n);
   orc_executor_set_m (ex, c->m);
@@ -253,7 +258,12 @@ static int vr_compare (VArena * X, VArena * R, const VRunCfg * c, OrcExecutor * 
   }
   if (X->sh.has_acc) {
     for (k = 0; k < 4; k++) {
-      if (ex_x->accumulators[k] != ex_r->accumulators[k]) {
+      /* only accumulators the program declares, at their declared width (a 16-bit accumulator is read back masked) */
+      OrcProgram *pp = ex_x->program ? ex_x->program : ex_r->program;
+      int asz = pp ? pp->vars[ORC_VAR_A1 + k].size : 4;
+      unsigned mask = asz == 2 ? 0xffffu : 0xffffffffu;
+      if (pp && (asz == 0 || pp->vars[ORC_VAR_A1 + k].vartype != ORC_VAR_TYPE_ACCUMULATOR)) continue;
+      if (((unsigned) ex_x->accumulators[k] & mask) != ((unsigned) ex_r->accumulators[k] & mask)) {
         snprintf (msg, cap, "accumulator %d differs: got 0x%08x want 0x%08x", k, ex_x->accumulators[k], ex_r->accumulators[k]);
         return 3;
       }
